@@ -512,6 +512,7 @@ static void validate(vctx *x, int cont, const unsigned char *p, size_t n, int ha
 			const char *rule;
 			int v = rsch_value(e->vtype, t.val, t.len, &rule);
 			if (v != RSCH_ACCEPT) note(x, v, c, rule, e->name);
+			if (v == RSCH_REJECT && t.len == 0) x->info->empty_values++;
 		}
 	}
 	if (first_present && unknown_before_known) note(x, RSCH_SILENT, c, "unknown-noncritical-before-first", NULL);
